@@ -71,3 +71,16 @@ func PruneRunOnceForVerif(
 	}
 	return 0, nil, false
 }
+
+// NewPruneServiceForVerif returns a fresh instance of the registered
+// maintenance service of the given name (nil if none is registered), so that a
+// verification harness can run its own loop (Initialize, Start) against its
+// own database.
+func NewPruneServiceForVerif(name string) Service {
+	for _, s := range defaultServices {
+		if ps, ok := s.(*pruneService); ok && ps.name == name {
+			return pruneServiceFor(ps.name, ps.actionbuilder)
+		}
+	}
+	return nil
+}
